@@ -1050,6 +1050,8 @@ func (x *Exec) instr(st *State, in ssa.Instruction) {
 		// a channel made here is not the Done channel of a context
 		vc.declFun(quote("spec$isctxdone"), []string{sInt}, sBool)
 		vc.assert(not(app(quote("spec$isctxdone"), ref)))
+		vc.declFun(quote("spec$chancap"), []string{sInt}, sInt)
+		vc.assert(implies(st.reach, eq(app(quote("spec$chancap"), ref), x.value(t.Size))))
 		x.vals[t] = ref
 	case *ssa.Send:
 		ch := x.value(t.Chan)
